@@ -11,6 +11,12 @@ MISS = {
     'C16-1': 'ray_capsule: only "the reported point lies on the surface" is proved; the changed root choice still reports surface points (nearest / no-hit not claimed)',
     'C16-2': 'mj_rayHfield not under contract',
     'C16-3': 'mju_multiRayPrepare (atan2) not under contract',
+    'C16-5': 'mju_raySlab (BVH slab test with IEEE infinities) not under contract',
+    'C16-6': 'mju_singleRay / mj_multiRay not under contract',
+    'C13-5': 'mjc_BoxBox not under contract',
+    'C13-6': 'mj_narrowphase contact assembly not under contract',
+    'C14-5': 'mj_collideOBB not under contract',
+    'C50-6': 'mjv_addGeoms (the caller of the add*Geoms functions) not under contract',
     'C17-3': 'unionConstraintTrees (row grouping) not under contract',
     'C17-5': 'mj_floodFill not under contract',
     'C17-6': 'mj_island map construction not under contract',
